@@ -53,8 +53,8 @@ def run(tier, seed):
     C.write_evidence(PROP, tier, seed, "exploration", {
         "evaluations": len(events),
         "distinct_nontrivial": len({json.dumps(c, sort_keys=True) for c in cases if any(c["edges"][n] for n in c["edges"])}),
-        "rule": "one evaluation = one TLC-enumerated type graph in one mode; %d graphs of %d (all digraphs) + %d (edge contexts) + %d (file layouts) + %d (derive spellings) + %d (nested edge contexts) + %d (roots mentioning two types) enumerated; non-trivial = at least one edge"
-                % (len(cases), total[0], total[1], total[2], total[3], total[4], total[5]),
+        "rule": "one evaluation = one TLC-enumerated type graph in one mode; %d graphs of %d (all digraphs) + %d (edge contexts) + %d (file layouts) + %d (derive spellings) + %d (nested edge contexts) + %d (roots mentioning two types) + %d (node kinds) enumerated; non-trivial = at least one edge"
+                % (len(cases), total[0], total[1], total[2], total[3], total[4], total[5], total[6]),
         "samples": [{"edges": {n: [(e["ctx"], e["to"]) for e in c["edges"][n]] for n in c["edges"]}, "roots": [(r["site"], r["ctx"], r["to"]) for r in c["roots"]]} for c in cases[:: max(1, len(cases) // 5)][:5]],
         "traces_validated_against_impl": len(events),
         "known_findings_matched": len(verdicts.known_hit),
